@@ -17,6 +17,8 @@ var impls = map[string]func(string) string{
 	"fmt.next":       implFmtNext,
 	"hash":           implHash,
 	"ip.ops":         implIpOps,
+	"http.retry":     implHTTPRetry,
+	"chain.ops":      implChainOps,
 	"prune.run":      implPruneRun,
 	"prune.classify": implPruneClassify,
 	"store.name":     implStoreName,
